@@ -16,6 +16,7 @@ import (
 	"math"
 	"os"
 	"runtime/debug"
+	"runtime/pprof"
 	"sort"
 	"strconv"
 	"strings"
@@ -95,6 +96,15 @@ func canon(v rdbgen.Val) (string, []string) {
 		}
 		sort.Strings(out)
 		return "zset", out
+	case "stream":
+		if v.Stream == nil { // already canonical (observed at the target)
+			out := []string{}
+			for _, e := range v.List {
+				out = append(out, string(e))
+			}
+			return "stream", out
+		}
+		return "stream", streamCanon(nil, v.Stream)
 	}
 	return v.Type, []string{}
 }
@@ -121,6 +131,21 @@ func fromFake(v *fakeredis.Value) rdbgen.Val {
 		o := rdbgen.Val{Type: "zset"}
 		for k, x := range v.ZSet {
 			o.ZSet = append(o.ZSet, rdbgen.ZM{M: []byte(k), S: x})
+		}
+		return o
+	case "stream":
+		o := rdbgen.Val{Type: "stream"}
+		if v.Stream != nil {
+			for _, e := range v.Stream.Entries {
+				s := "e " + e.ID
+				for i := 0; i+1 < len(e.Fields); i += 2 {
+					s += " " + hexs(e.Fields[i]) + "=" + hexs(e.Fields[i+1])
+				}
+				o.List = append(o.List, []byte(s))
+			}
+			for _, x := range v.Stream.Extra {
+				o.List = append(o.List, []byte(x))
+			}
 		}
 		return o
 	case "opaque":
@@ -155,6 +180,22 @@ func toFake(v rdbgen.Val) *fakeredis.Value {
 			o.ZSet[string(m.M)] = m.S
 		}
 		return o
+	case "stream":
+		st := &fakeredis.Stream{Groups: map[string]*fakeredis.StreamGroup{}, LastID: v.Stream.LastID.String()}
+		for _, n := range v.Stream.Nodes {
+			for _, e := range n {
+				if e.Deleted {
+					continue
+				}
+				fe := fakeredis.StreamEntry{ID: e.ID.String()}
+				for _, f := range e.Fields {
+					fe.Fields = append(fe.Fields, f[0], f[1])
+				}
+				st.Entries = append(st.Entries, fe)
+			}
+		}
+		st.Extra = streamExtra(streamKeyOf[v.Stream], v.Stream, streamVerOf[v.Stream])
+		return &fakeredis.Value{Type: "stream", Stream: st}
 	}
 	return nil
 }
@@ -202,6 +243,187 @@ func uniq(r *hx.Rng, n int, ints bool) [][]byte {
 	return out
 }
 
+// streamExtra: the administrative commands Redis itself emits when it rewrites a stream (aof.c rewriteStreamObject),
+// for a target of version 7: XSETID with ENTRIESADDED / MAXDELETEDID, XGROUP CREATE with ENTRIESREAD, one XCLAIM per
+// pending entry of every consumer
+func streamExtra(key []byte, sv *rdbgen.StreamVal, ver int) []string {
+	length := uint64(0)
+	for _, n := range sv.Nodes {
+		for _, e := range n {
+			if !e.Deleted {
+				length++
+			}
+		}
+	}
+	added, maxDel := sv.EntriesAdded, sv.MaxDeletedID
+	if ver == 1 {
+		added, maxDel = length, rdbgen.StreamID{}
+	}
+	out := []string{fmt.Sprintf("xsetid %s %s ENTRIESADDED %d MAXDELETEDID %s", key, sv.LastID, added, maxDel)}
+	for _, g := range sv.Groups {
+		read := int64(g.EntriesRead)
+		if ver == 1 {
+			// a stream saved before Redis 7 has no counter: rdb.c estimates it when it loads the group
+			read = streamEstimate(sv, g.LastID, length, added)
+		}
+		out = append(out, fmt.Sprintf("xgroup CREATE %s %s %s ENTRIESREAD %d", key, g.Name, g.LastID, read))
+		for _, c := range g.Consumers {
+			for _, id := range c.Pending {
+				var nk rdbgen.StreamNack
+				for _, x := range g.PEL {
+					if x.ID == id {
+						nk = x
+					}
+				}
+				out = append(out, fmt.Sprintf("xclaim %s %s %s 0 %s TIME %d RETRYCOUNT %d JUSTID FORCE", key, g.Name, c.Name, id, nk.DeliveryTime, nk.DeliveryCount))
+			}
+		}
+	}
+	return out
+}
+
+func cmpID(a, b rdbgen.StreamID) int {
+	switch {
+	case a.Ms != b.Ms && a.Ms < b.Ms, a.Ms == b.Ms && a.Seq < b.Seq:
+		return -1
+	case a == b:
+		return 0
+	}
+	return 1
+}
+
+// streamEstimate is t_stream.c streamEstimateDistanceFromFirstEverEntry for a stream loaded from the pre-7 encoding
+// (entries_added = length, max_deleted_entry_id = 0-0, first_id = id of the first entry): -1 is "unknown"
+func streamEstimate(sv *rdbgen.StreamVal, id rdbgen.StreamID, length, added uint64) int64 {
+	if added == 0 {
+		return 0
+	}
+	if length == 0 && cmpID(id, sv.LastID) < 1 {
+		return int64(added)
+	}
+	if cmpID(id, sv.LastID) == 0 {
+		return int64(added)
+	}
+	if cmpID(id, sv.LastID) > 0 {
+		return -1
+	}
+	var first rdbgen.StreamID
+	for _, n := range sv.Nodes {
+		for _, e := range n {
+			if !e.Deleted && first == (rdbgen.StreamID{}) {
+				first = e.ID
+			}
+		}
+	}
+	switch c := cmpID(id, first); {
+	case c < 0:
+		return int64(added - length)
+	case c == 0:
+		return int64(added-length) + 1
+	}
+	return -1
+}
+
+var streamKeyOf = map[*rdbgen.StreamVal][]byte{}
+var streamVerOf = map[*rdbgen.StreamVal]int{}
+
+func streamCanon(key []byte, sv *rdbgen.StreamVal) []string {
+	if key == nil {
+		key = streamKeyOf[sv]
+	}
+	out := []string{}
+	for _, n := range sv.Nodes {
+		for _, e := range n {
+			if e.Deleted {
+				continue
+			}
+			s := "e " + e.ID.String()
+			for _, f := range e.Fields {
+				s += " " + hexs(f[0]) + "=" + hexs(f[1])
+			}
+			out = append(out, s)
+		}
+	}
+	return append(out, streamExtra(key, sv, streamVerOf[sv])...)
+}
+
+func genStream(r *hx.Rng, key []byte, enc string) rdbgen.Val {
+	ver := map[string]int{"listpacks": 1, "listpacks2": 2, "listpacks3": 3}[enc]
+	sv := &rdbgen.StreamVal{}
+	ms := uint64(1700000000000 + r.Intn(1000))
+	var ids []rdbgen.StreamID
+	total := 0
+	for n := 0; n < r.Intn(4); n++ {
+		var node []rdbgen.StreamEntry
+		base := [][]byte{[]byte("temp"), []byte("hum")}
+		for j := 0; j < 1+r.Intn(4); j++ {
+			if r.Chance(40) {
+				ms += uint64(1 + r.Intn(50))
+			}
+			id := rdbgen.StreamID{Ms: ms, Seq: uint64(total)}
+			total++
+			e := rdbgen.StreamEntry{ID: id}
+			if j == 0 || r.Chance(60) {
+				for _, f := range base { // same fields as the node's master entry
+					e.Fields = append(e.Fields, [2][]byte{f, elem(r, false)})
+				}
+			} else {
+				for k := 0; k < 1+r.Intn(3); k++ {
+					e.Fields = append(e.Fields, [2][]byte{[]byte(fmt.Sprintf("f%d", k)), elem(r, r.Bool())})
+				}
+			}
+			if j > 0 && ver >= 2 && r.Chance(20) {
+				e.Deleted = true
+				sv.MaxDeletedID = id
+			} else {
+				ids = append(ids, id)
+			}
+			node = append(node, e)
+		}
+		sv.Nodes = append(sv.Nodes, node)
+	}
+	sv.LastID = rdbgen.StreamID{Ms: ms, Seq: uint64(total)}
+	if len(ids) > 0 && r.Chance(50) {
+		sv.LastID = ids[len(ids)-1]
+		if sv.MaxDeletedID.Ms > sv.LastID.Ms || (sv.MaxDeletedID.Ms == sv.LastID.Ms && sv.MaxDeletedID.Seq > sv.LastID.Seq) {
+			sv.LastID = sv.MaxDeletedID
+		}
+	}
+	sv.EntriesAdded = uint64(total + r.Intn(5))
+	for g := 0; g < r.Intn(3); g++ {
+		grp := rdbgen.StreamGroup{Name: []byte(fmt.Sprintf("grp%d", g)), LastID: sv.LastID, EntriesRead: uint64(r.Intn(total + 1))}
+		if r.Bool() {
+			grp.LastID = rdbgen.StreamID{}
+			grp.EntriesRead = 0
+		} else if len(ids) > 0 && r.Bool() {
+			// delivered up to the first / some entry: the usual state of a group that is being consumed
+			k := 0
+			if r.Bool() {
+				k = r.Intn(len(ids))
+			}
+			grp.LastID = ids[k]
+			grp.EntriesRead = uint64(k + 1)
+		}
+		nc := r.Intn(3)
+		for c := 0; c < nc; c++ {
+			grp.Consumers = append(grp.Consumers, rdbgen.StreamConsumer{Name: []byte(fmt.Sprintf("cons%d", c)), SeenTime: uint64(1700000000000 + r.Intn(100000)), ActiveTime: uint64(1700000000000 + r.Intn(100000))})
+		}
+		if nc > 0 {
+			for _, id := range ids {
+				if r.Chance(40) {
+					grp.PEL = append(grp.PEL, rdbgen.StreamNack{ID: id, DeliveryTime: uint64(1700000000000 + r.Intn(1000000)), DeliveryCount: uint64(1 + r.Intn(5))})
+					c := r.Intn(nc)
+					grp.Consumers[c].Pending = append(grp.Consumers[c].Pending, id)
+				}
+			}
+		}
+		sv.Groups = append(sv.Groups, grp)
+	}
+	streamKeyOf[sv] = key
+	streamVerOf[sv] = ver
+	return rdbgen.Val{Type: "stream", Stream: sv}
+}
+
 func genEntry(r *hx.Rng, i int, typ, enc string) *rdbgen.Entry {
 	e := &rdbgen.Entry{Key: []byte(fmt.Sprintf("k%d:%s:%s", i, typ, enc)), Enc: enc}
 	if r.Chance(15) {
@@ -233,6 +455,8 @@ func genEntry(r *hx.Rng, i int, typ, enc string) *rdbgen.Entry {
 			v.Hash = append(v.Hash, [2][]byte{f, elem(r, false)})
 		}
 		e.Val = v
+	case "stream":
+		e.Val = genStream(r, e.Key, enc)
 	case "zset":
 		v := rdbgen.Val{Type: "zset"}
 		scores := []float64{0, 1, -1, 1.5, 3, 1e10, -2.25, 12, 13, 4096, math.Inf(1), math.Inf(-1), 0.1}
@@ -248,7 +472,7 @@ func genEntry(r *hx.Rng, i int, typ, enc string) *rdbgen.Entry {
 	return e
 }
 
-var types = []string{"string", "list", "set", "zset", "hash"}
+var types = []string{"string", "list", "set", "zset", "hash", "stream"}
 
 func genDataset(r *hx.Rng, nkeys int, base int64) []*rdbgen.Entry {
 	var out []*rdbgen.Entry
@@ -309,9 +533,10 @@ func isData(name string) bool {
 
 func runScenario(sc *scenario, data []byte) result {
 	srv := fakeredis.New()
-	// virtual clock: starts at the wall clock and advances 2 ms per request, so that a 1 ms ttl
-	// has always run out before the next request (deterministic expiry races)
-	srv.ClockStepMs = 2
+	// the clock follows the wall clock (the tool converts absolute expiry times with its own clock) and advances at
+	// least 1 ms per request, so that a 1 ms ttl has always run out before the next request (deterministic expiry races)
+	srv.ClockStepMs = 1
+	srv.RealClock = true
 	srv.NowMs = time.Now().UnixMilli()
 	if _, err := srv.Start(); err != nil {
 		hx.Fatal("%v", err)
@@ -425,10 +650,24 @@ func runScenario(sc *scenario, data []byte) result {
 		time.Sleep(time.Millisecond)
 		close(gate)
 	}
-	select {
-	case err = <-done:
-	case <-time.After(40 * time.Second):
-		hx.Fatal("scenario %d: SendRdb did not return (hang)", sc.id)
+	// a replay that is slow on a loaded machine keeps sending requests; one that is stuck does not
+	for idle, last := 0, int64(-1); ; {
+		select {
+		case err = <-done:
+			goto finished
+		case <-time.After(10 * time.Second):
+		}
+		srv.Lock()
+		now := int64(srv.Recv)
+		srv.Unlock()
+		if now != last {
+			idle, last = 0, now
+			continue
+		}
+		if idle++; idle >= 4 {
+			pprof.Lookup("goroutine").WriteTo(os.Stderr, 1)
+			hx.Fatal("scenario %d (%s@%d): SendRdb did not return and the target saw no request for 40 s (hang)", sc.id, sc.fault, sc.faultAt)
+		}
 	}
 finished:
 	if err == nil {
@@ -553,8 +792,31 @@ func main() {
 	shard := flag.Int("shard", 0, "")
 	shards := flag.Int("shards", 1, "")
 	flipStride := flag.Int("flip-stride", 8, "loader mode: try every k-th alteration value")
+	only := flag.Int("only", -1, "run only the scenario with this index (reproduction of a crash in isolation)")
+	input := flag.String("input", "", "loader-one mode: the damaged snapshot to parse")
+	variant := flag.Int("variant", -1, "with -only in fault mode: run only this fault variant, on the snapshot bytes given with -input")
+	baseFlag := flag.Int64("base", 0, "with -only: the time base (ms) of the scenario to reproduce (expiry times are part of the snapshot bytes)")
 	flag.Parse()
 	hx.QuietLogs()
+	curPath = *out + ".cur"
+	if *mode == "loader-one" {
+		// one damaged snapshot parsed in a process of its own: the caller wants to know whether the process survives
+		d, err := os.ReadFile(*input)
+		if err != nil {
+			hx.Fatal("%v", err)
+		}
+		var rb atomic.Int64
+		n, sawErr := 0, false
+		for e := range rdb.ParseRdb(bytes.NewReader(d), &rb, 64) {
+			if e.Err != nil {
+				sawErr = true
+			} else if !e.Done {
+				n++
+			}
+		}
+		fmt.Printf("loader-one: entries=%d error=%v\n", n, sawErr)
+		return
+	}
 	tr, err := hx.NewTrace(*out)
 	if err != nil {
 		hx.Fatal("%v", err)
@@ -570,8 +832,16 @@ func main() {
 			continue
 		}
 		id += *shards
+		if *only >= 0 && i != *only {
+			continue
+		}
 		r := hx.NewRng(*seed*7919 + uint64(i)*3 + uint64(len(*mode)))
 		base := time.Now().UnixMilli()
+		if *only >= 0 && *baseFlag != 0 {
+			base = *baseFlag
+		}
+		curIndex, curBase, curVariant = i, base, -1
+		noteCurrent(nil)
 		sc := &scenario{id: id, kind: *mode, version: []int{6, 7, 8, 9, 10, 11, 12}[r.Intn(7)], restore: r.Bool(), bulk: 512 << 20,
 			parallel: 1 + r.Intn(3), pipe: []int{1, 2, 8, 1024}[r.Intn(4)], targetDb: -1, policy: "replace", left: int64(1000 + r.Intn(100000)), baseMs: base}
 		sc.entries = genDataset(r, 1+r.Intn(10), base)
@@ -592,6 +862,9 @@ func main() {
 		sc.bisync = *bisyncPct > 0 && r.Intn(100) < *bisyncPct
 		wd.Kick(fmt.Sprintf("%s scenario %d", *mode, id))
 		data, err := rdbgen.Build(sc.entries, sc.version, r.Bool())
+		if p := os.Getenv("VERIF_DUMP_RDB"); p != "" && err == nil {
+			os.WriteFile(p, data, 0o644)
+		}
 		if err != nil {
 			hx.Fatal("rdbgen: %v", err)
 		}
@@ -673,13 +946,36 @@ func main() {
 					}
 				}
 				wd.Kick(fmt.Sprintf("fault scenario %d %s@%d", f.id, f.fault, f.faultAt))
+				if *variant >= 0 {
+					// reproduction: the snapshot bytes of the run that died (generated bytes depend on map order and time)
+					if v != *variant {
+						continue
+					}
+					if d, err = os.ReadFile(*input); err != nil {
+						hx.Fatal("%v", err)
+					}
+				}
+				curVariant = v
+				noteCurrent(d)
 				res := runScenario(&f, d)
 				emitScenario(tr, &f, res)
 				nScen++
 			}
 		case "loader":
 			// loader level: every truncation and every k-th single byte alteration must surface as an error entry
-			nScen += loaderEnum(tr, sc, data, *flipStride, r, wd)
+			// a damaged snapshot that the parser alone lets through is replayed through the whole path (SendRdb): what
+			// the property speaks about is the result of the replay
+			nfull := 0
+			full := func(kind string, at int, xor int, d []byte) bool {
+				f := *sc
+				nfull++
+				f.id, f.kind, f.fault, f.faultAt, f.flipXor = id*100+50+nfull%50, "fault", kind, at, byte(xor)
+				wd.Kick(fmt.Sprintf("loader candidate %s@%d", kind, at))
+				res := runScenario(&f, d)
+				emitScenario(tr, &f, res)
+				return res.ret == "ok"
+			}
+			nScen += loaderEnum(tr, sc, data, *flipStride, r, wd, full)
 		}
 		if len(samples) < 2 {
 			var ks []string
@@ -690,6 +986,8 @@ func main() {
 				"chunk": sc.chunk, "policy": sc.policy, "keys": strings.Join(ks, ", "), "rdb_bytes": len(data)})
 		}
 	}
+	os.Remove(curPath)
+	os.Remove(curPath + ".bin")
 	if err := tr.Close(); err != nil {
 		hx.Fatal("%v", err)
 	}
@@ -698,8 +996,22 @@ func main() {
 	fmt.Fprintf(os.Stderr, "fullsyncdrv(%s): %d scenarios, %d keys\n", *mode, nScen, nKeys)
 }
 
+// what the driver is working on, for the caller to reproduce in isolation should this process die (a Go runtime fatal
+// error such as an allocation the machine cannot satisfy cannot be recovered from inside)
+var curPath string
+var curIndex int
+var curBase int64
+var curVariant = -1
+
+func noteCurrent(damaged []byte) {
+	os.WriteFile(curPath, []byte(fmt.Sprintf("{\"i\":%d,\"base\":%d,\"variant\":%d,\"damaged\":%v}", curIndex, curBase, curVariant, damaged != nil)), 0o644)
+	if damaged != nil {
+		os.WriteFile(curPath+".bin", damaged, 0o644)
+	}
+}
+
 // loaderEnum feeds damaged copies of data to the real parser (rdb.ParseRdb) and records one summary event.
-func loaderEnum(tr *hx.Trace, sc *scenario, data []byte, stride int, r *hx.Rng, wd *hx.Watchdog) int {
+func loaderEnum(tr *hx.Trace, sc *scenario, data []byte, stride int, r *hx.Rng, wd *hx.Watchdog, full func(kind string, at int, xor int, d []byte) bool) int {
 	config.RdbPipeSize = 1024
 	// parseOnce: limit is the time without any progress (bytes consumed, entries delivered) after which the
 	// parse counts as stuck; a parse that is merely slow on a loaded machine keeps making progress
@@ -746,6 +1058,7 @@ func loaderEnum(tr *hx.Trace, sc *scenario, data []byte, stride int, r *hx.Rng, 
 			debug.FreeOSMemory()
 		}
 		var to bool
+		noteCurrent(d)
 		entries, sawErr, sawDone, to = parseOnce(d, 10*time.Second)
 		if to {
 			// a slow parse under memory pressure is not a hang: try again alone after a collection
@@ -760,13 +1073,16 @@ func loaderEnum(tr *hx.Trace, sc *scenario, data []byte, stride int, r *hx.Rng, 
 	}
 	n0, e0, d0 := parse(data)
 	silent := []map[string]interface{}{}
-	tried := 0
+	tried, parserAccepted := 0, 0
 	for cut := 0; cut < len(data); cut++ {
 		tried++
 		what = map[string]interface{}{"kind": "trunc", "at": cut}
 		_, se, sd := parse(data[:cut])
 		if !se {
-			silent = append(silent, map[string]interface{}{"kind": "trunc", "at": cut, "done": sd})
+			parserAccepted++
+			if parserAccepted > 40 || full("trunc", cut, 0, data[:cut]) {
+				silent = append(silent, map[string]interface{}{"kind": "trunc", "at": cut, "done": sd})
+			}
 		}
 	}
 	off := r.Intn(stride)
@@ -779,7 +1095,10 @@ func loaderEnum(tr *hx.Trace, sc *scenario, data []byte, stride int, r *hx.Rng, 
 			what = map[string]interface{}{"kind": "flip", "at": pos, "xor": x}
 			_, se, sd := parse(d)
 			if !se {
-				silent = append(silent, map[string]interface{}{"kind": "flip", "at": pos, "xor": x, "done": sd})
+				parserAccepted++
+				if parserAccepted > 40 || full("flip", pos, x, d) {
+					silent = append(silent, map[string]interface{}{"kind": "flip", "at": pos, "xor": x, "done": sd})
+				}
 			}
 		}
 	}
@@ -787,6 +1106,6 @@ func loaderEnum(tr *hx.Trace, sc *scenario, data []byte, stride int, r *hx.Rng, 
 		silent = silent[:20]
 	}
 	tr.Emit(map[string]interface{}{"ev": "Loader", "id": sc.id, "bytes": len(data), "version": sc.version, "intactEntries": n0, "intactErr": e0, "intactDone": d0,
-		"tried": tried, "silent": silent, "hangs": hangs, "keys": len(sc.entries)})
+		"tried": tried, "silent": silent, "parserAccepted": parserAccepted, "hangs": hangs, "keys": len(sc.entries)})
 	return tried
 }
